@@ -410,3 +410,24 @@ package goja
 //@   props C01
 //@   trusted
 //@   assigns nothing
+
+// ---- try/finally instructions (C08: the completion finally observed is the specified one)
+// While a finally block runs, the pending completion - the value of a return that is waiting for it,
+// or the completion value of the try block - is parked in the try frame (not in the vm.result
+// register, which a nested return inside the finally block overwrites), and a finally block that
+// completes normally hands exactly that value back.
+//@ func (leaveTry).exec
+//@   props C08
+// (code positions are kept in 32 bits in the frame)
+//@   requires vm != nil && len(vm.tryStack) > 0 && 0 <= vm.pc && vm.pc < 2147483647
+//@   ensures old(vm.tryStack[len(vm.tryStack)-1].finallyPos) >= 0 ==> len(vm.tryStack) == old(len(vm.tryStack)) && same(vm.tryStack[len(vm.tryStack)-1].result, old(vm.result)) && int(vm.tryStack[len(vm.tryStack)-1].finallyRet) == old(vm.pc)+1 && vm.pc == int(old(vm.tryStack[len(vm.tryStack)-1].finallyPos)) && vm.tryStack[len(vm.tryStack)-1].finallyPos == -1 && vm.tryStack[len(vm.tryStack)-1].catchPos == -1 [pending-completion-parked-and-finally-entered-once]
+//@   ensures old(vm.tryStack[len(vm.tryStack)-1].finallyPos) < 0 ==> len(vm.tryStack) == old(len(vm.tryStack))-1 && vm.pc == old(vm.pc)+1 [without-finally-the-frame-is-popped]
+//@   ensures same(vm.result, old(vm.result)) [result-register-kept]
+
+//@ func (leaveFinally).exec
+//@   props C08
+//@   maypanic
+//@   requires vm != nil && len(vm.tryStack) > 0
+//@   ensures old(vm.tryStack[len(vm.tryStack)-1].exception) == nil ==> len(vm.tryStack) == old(len(vm.tryStack))-1 [frame-popped-exactly-once]
+//@   ensures old(vm.tryStack[len(vm.tryStack)-1].exception) == nil && old(vm.tryStack[len(vm.tryStack)-1].finallyRet) != -1 ==> same(vm.result, old(vm.tryStack[len(vm.tryStack)-1].result)) && vm.pc == int(old(vm.tryStack[len(vm.tryStack)-1].finallyRet)) [normal-finally-hands-back-the-parked-completion]
+//@   ensures old(vm.tryStack[len(vm.tryStack)-1].exception) == nil && old(vm.tryStack[len(vm.tryStack)-1].finallyRet) == -1 ==> same(vm.result, old(vm.result)) && vm.pc == old(vm.pc)+1 [falls-through]
